@@ -408,6 +408,7 @@ func (x *Exec) callStatic(st *State, call *ast.CallExpr, callee *types.Func, rec
 
 // applyContract: assert requires, havoc per modifies, assume ensures (+ functional abstraction when pure).
 func (x *Exec) applyContract(st *State, call *ast.CallExpr, key string, c *FuncContract, sig *types.Signature, recv Value, args []Value) []Value {
+	x.eng.appliedContracts[key] = true
 	bind := map[string]Value{}
 	if sig.Recv() != nil && recv != nil {
 		bind[sig.Recv().Name()] = recv
